@@ -250,6 +250,83 @@ func highcmd(w []string) bool {
 					return
 				}
 			}
+			// one Row scanned twice: what the caller does to the first result must not show in the second
+			// (Scan leaves the row unchanged), neither inside a callback nor on the Row SelectRowid returns
+			idx := 0
+			bad := ""
+			err = hd.Select(w[1], func(r sqlittle.Row) {
+				var b1, b2 []byte
+				if err := r.Scan(&b1); err != nil {
+					panic(err)
+				}
+				for i := range b1 {
+					b1[i] = 'Y'
+				}
+				if err := r.Scan(&b2); err != nil {
+					panic(err)
+				}
+				if idx < len(keep) && string(b2) != string(keep[idx]) && bad == "" {
+					bad = fmt.Sprintf("scanmut row %d: the second Scan of one Row returns what the caller wrote into the first scanned slice (len %d)", idx, len(keep[idx]))
+				}
+				idx++
+			}, w[2])
+			if err != nil || bad != "" {
+				fmt.Fprintf(out, "%s %v\n", bad, err)
+				return
+			}
+			third, _, err := read()
+			for i := range third {
+				if err != nil || string(third[i]) != string(keep[i]) {
+					fmt.Fprintf(out, "scanmut row %d: after a Row was scanned twice with a scribble in between, a later read differs (len %d)\n", i, len(keep[i]))
+					return
+				}
+			}
+			// Rows made from the records of the low level API (Row is db.Record): scan, scribble, read again
+			if tb, err := db.Table(w[1]); err == nil {
+				pass := func(scribble bool) ([][]byte, error) {
+					var res [][]byte
+					if err := db.RLock(); err != nil {
+						return nil, err
+					}
+					defer db.RUnlock()
+					err := tb.Scan(func(rowid int64, rec sdb.Record) bool {
+						if len(rec) < 2 {
+							return false
+						}
+						var b []byte
+						if err := sqlittle.Row(rec[1:2]).Scan(&b); err != nil {
+							panic(err)
+						}
+						res = append(res, append([]byte(nil), b...))
+						if scribble {
+							for i := range b {
+								b[i] = 'Z'
+							}
+						}
+						return false
+					})
+					return res, err
+				}
+				l1, err1 := pass(true)
+				l2, err2 := pass(false)
+				if err1 != nil || err2 != nil {
+					fmt.Fprintf(out, "scanmut err low level %v %v\n", err1, err2)
+					return
+				}
+				for i := range l1 {
+					if i >= len(l2) || string(l1[i]) != string(l2[i]) {
+						fmt.Fprintf(out, "scanmut row %d: a []byte scanned from a Row made of a low level Record is not a copy: a later Table.Scan returns the caller's bytes (len %d)\n", i, len(l1[i]))
+						return
+					}
+				}
+				fourth, _, err := read()
+				for i := range fourth {
+					if err != nil || string(fourth[i]) != string(keep[i]) {
+						fmt.Fprintf(out, "scanmut row %d: a later Select returns bytes written into a slice scanned from a low level Record (len %d)\n", i, len(keep[i]))
+						return
+					}
+				}
+			}
 			db.Close()
 			for i := range second {
 				if string(second[i]) != string(keep[i]) || firstS[i] != string(keep[i]) {
